@@ -73,6 +73,13 @@ def gen_specs(run):
         specs.append({"id": f"c02-batch-{bi}", "group": "fm", "members": mems, "derived": derived,
                       "verifies": [{"mode": "VerifyOnly", "vmembers": vm_h}, {"mode": rng.choice(VMODES), "vmembers": vm_a, "_expect": "err", "_why": "cooperating +-delta on d1 in one batch"}],
                       "_conf": [b, n, T]})
+    # the relation is the one of the statement's OWN generators, also for the largest statement of a mixed batch that is not first
+    for sp in gen.mixed_generator_batches(rng, quick, "c02g"):
+        sp["_conf"] = sp["_conf"][:3]
+        for v, (tag, want_ok) in zip(sp["verifies"], sp["_tags"]):
+            v["_expect"] = "ok" if want_ok else "err"
+            v["_why"] = tag
+        specs.append(sp)
     return specs
 
 
@@ -89,6 +96,8 @@ def oracle(run, s, o):
         run.bump(kind)
         if vi == 0 and res != "ok":
             run.violation(f"honest proof rejected (bits={b}, m={m}, T={T}): {res}", {"kind": "session", "spec": sessions.strip(s), "verify": vi})
+        if vs.get("_expect") == "ok" and res != "ok":
+            run.violation(f"control case refused ({vs['_why']}): {res[:80]}", {"kind": "session", "spec": sessions.strip(s), "verify": vi})
         if vs.get("_expect") == "err" and res == "ok":
             run.violation(f"proof accepted for a statement it was not made for ({vs['_why']}; bits={b}, m={m}, T={T})",
                           {"kind": "session", "spec": sessions.strip(s), "verify": vi})
